@@ -406,8 +406,9 @@ def _run_history(sc, want_idempotence=True, faults=None, audits=True):
                         ats = [x for x in al[ln] if x['tag'] == 'TIMESTAMP']
                         if not ats:
                             violations.append(viol('own.entry-lost', '%s: %s lost its TIMESTAMP' % (what, ln), sig='TIMESTAMP'))
-                        elif (u.get('api', 'lib') == 'lib' or (scope and not u.get('timestamp'))) and ats[0]['ts'] != e['ts']:
-                            # (the CLI refreshes an existing TIMESTAMP on a whole-tree update only)
+                        elif (u.get('api', 'lib') == 'lib' or ((scope or u.get('create')) and not u.get('timestamp'))) and ats[0]['ts'] != e['ts']:
+                            # (the CLI refreshes an existing TIMESTAMP on a whole-tree update only; `create` writes one only
+                            # when asked to)
                             violations.append(viol('own.timestamp-changed', '%s: TIMESTAMP %s -> %s without being asked' % (what, e['ts'], ats[0]['ts']), sig='TIMESTAMP'))
             # entry type of existing, uniquely listed files
             prior = {}
